@@ -38,6 +38,9 @@ RULES = {
     "W6": R3.rule_W6,
     "W7": R3.rule_W7,
     "W8": R3.rule_W8,
+    "T19": R3.rule_T19,
+    "T18": R3.rule_T18,
+    "T17": R3.rule_T17,
     "G7": R3.rule_G7,
     "A12": R3.rule_A12,
     "D10": R3.rule_D10,
@@ -96,12 +99,12 @@ PROPS = {
         "returns into its caller's frame (D6: push_frame / pop_frame of BasicGarnishData encode and decode the frame chain inversely). Also (W2): a number stored by a program reads back as that number - the hash that alone keys SimpleGarnishData's constant table keeps Integer and Float apart. Also, as necessary conditions on what the operators compute: (T4) the logical instructions && || ^^ !! ?? classify every value type with exactly {False, Unit} false and leave a boolean, (T6) the four ordering instructions agree with the comparison table, (N7) no arithmetic method answers 'no result' because an intermediate step of a different operation overflowed.",
     },
     "C02": {
-        "rules": ["T3", "T13"],
+        "rules": ["T3", "T13", "T17", "T18", "T19"],
         "claim": "Decides the table clause of C02, not the parser that consumes it: the priority map is total over producible "
         "definitions, induces exactly the ordered tiers of spec/precedence.json (compared as an ordered partition, never "
         "by number), the associativity classes are as specified, and every call that places a token in the tree is told the "
         "enclosing bracket's node index taken from the group stack, never the nesting depth (T13, sibling call-site agreement: the "
-        "value is compared with node indices when the parent chain is walked, so a depth lets an operator escape its brackets).",
+        "value is compared with node indices when the parent chain is walked, so a depth lets an operator escape its brackets). Also (T17, stack discipline): the parser's stack of open brackets is read only at its top or at the index derived from its length (the current group) - never at a fixed position - so 'brackets override' is decided by the innermost open bracket. And (T18) the parser arms that insert a synthetic List node record their own shifted id as the next parent. And (T19) every arm that places the current token with an assumed right operand first records the token as the next parent (sibling agreement over the four operator arms).",
     },
     "C03": {
         "rules": ["G2c", "G1c", "G5", "G6"],
@@ -185,13 +188,13 @@ PROPS = {
         "store primitives rewrite cells (W1). Structural identity after compaction is not decided. Also (D2): the compaction's look-ups slice the raw heap only with rebased bounds (must-analysis: both bounds of a slice, every definition of a local, every call site of a parameter) - the root look-ups of optimize() must not reach cells in front of the index list.",
     },
     "C04": {
-        "rules": ["T10", "A2", "G5"],
+        "rules": ["T10", "A2", "G5", "T18"],
         "claim": "Decides the attribution clause of C04, not the tree shape: every one of the 69 Definition handlers (except the reviewed "
         "Group / ElseJump / Drop) records at least one instruction with Some(index of the node it handles), and on every path through "
         "the builder each emitted instruction gets exactly one metadata record (so an attribution can be neither lost nor doubled); and the 'no node is "
         "shared or lies on a cycle' clause for everything build accepts: build() itself walks the links from the root, marks visited nodes and returns Err "
         "for a node reached twice before it emits anything (G5). That the in-order walk of the accepted tree is the token stream is value-dependent parser "
-        "bookkeeping and is not decided.",
+        "bookkeeping and is not decided. Also (T18): an arm of parse() that computes a shifted id for the node it creates (because a synthetic List node may be inserted in front of it) records that id, not the unshifted one, in the loop-carried parser state - so the tokens that follow are linked under the node that was meant, not under the List node outside the brackets (a necessary condition of 'child and parent links agree / the in-order walk is the token order').",
     },
     "C05": {
         "rules": ["A2", "D4", "T1", "T11", "D7", "A10"],
